@@ -4,7 +4,7 @@ from __future__ import annotations
 import copy
 
 from . import gen
-from .common import Batch, Result, canon_json, conv_tree, err_class, load_corpus, raw_parse, render_doc, rng_for
+from .common import Batch, Result, dec, enc, canon_json, conv_tree, err_class, load_corpus, raw_parse, render_doc, rng_for
 from .decsnap import impl_tables, model_tables
 
 
@@ -168,6 +168,25 @@ def run(ctx):
                 res.violation("decay tables differ from the model", case, impl=a, model=model_tables(ans[1]), clause="model tie: tables")
 
         batch.add(["tables", [True], wire], on)
+        # the substitution the theorems C05_expand* are about (`substDoc`, definitions dropped) is the expansion used here
+        try:
+            wire2 = dec(enc(conv_tree(raw_parse(text2))))
+        except Exception:
+            wire2 = None
+
+        def on2(ans, case=case, wire2=wire2):
+            if ans is None or wire2 is None:
+                return
+            res.count("subst_compared")
+            if ans[0] != "ok":
+                res.violation("model refuses the text", case, model=ans, clause="model tie")
+            elif ans[1][1] != wire2:
+                res.violation("the model's substitution (substDoc) is not the textual expansion", case, impl=wire2, model=ans[1][1],
+                              clause="model tie: substitution")
+            elif ans[1][0] != "T":
+                res.count("subst_alias_of_alias")
+
+        batch.add(["subst", wire], on2)
 
     for fname, c in load_corpus("C05"):
         one(c["doc"], "corpus:" + fname)
